@@ -615,8 +615,10 @@ int fcntl(int fd, int cmd, ...) {
   va_end(args);
 
   if (!thread_locked) {
-    if (cmd == F_SETFL && (val == O_NONBLOCK || val == O_NDELAY)) {
-      assert(fd < max_fd);
+    // descriptors outside the table (negative, or >= the limit the table was
+    // sized for) are left to the real fcntl, which reports the error
+    if (cmd == F_SETFL && (val == O_NONBLOCK || val == O_NDELAY) && fd_info &&
+        fd >= 0 && (rlim_t)fd < max_fd) {
       atomic_fetch_and(&fd_info[fd].flags_, ~IO_FLAG_BLOCKING);
       assert(!(fd_info[fd].flags_ & IO_FLAG_BLOCKING));
       return 0;
@@ -645,7 +647,13 @@ int ioctl(IOCTLPARAMS) {
       errno = EINVAL;
       return -1;
     }
-    assert(d < max_fd);
+    if (!fd_info || d < 0 || (rlim_t)d >= max_fd) {
+      // not a descriptor we keep state for: the real ioctl reports the error
+      if (!fibershim_ioctl) {
+        fibershim_ioctl = (ioctlFnType)dlsym(RTLD_NEXT, "ioctl");
+      }
+      return fibershim_ioctl(d, request, val);
+    }
     if (*(int*)val) {
       atomic_fetch_and(&fd_info[d].flags_, ~IO_FLAG_BLOCKING);
       assert(!(fd_info[d].flags_ & IO_FLAG_BLOCKING));
